@@ -5,6 +5,8 @@
 -/
 import EEM.Model.Resample
 import EEM.Gen.Thresholds
+import EEM.Model.ResampleMin
+import EEM.Bridge.ResampleRefine
 import Mathlib.Tactic.Linarith
 import Mathlib.Tactic.FieldSimp
 import Mathlib.Tactic.Ring
@@ -298,5 +300,51 @@ theorem C08_src_half_rule (ps : List Period) (d0 d1 : Int) :
 theorem C08_src_warned_iff_dropped (c : Rat) : dayWarn c = !dayKept c := by
   unfold dayWarn dayKept
   rw [Bool.eq_iff_iff]; simp
+
+/-! ### The minute-grid algorithm `as_freq` runs (`EEM.Model.ResampleMin`) refines the closed form -/
+
+open EEM.Model.ResampleMin EEM.Bridge.ResampleRefine
+
+/-- **spreading a reading evenly over its minutes and summing the minutes of a day is the interval-overlap share**:
+for readings on a strictly increasing index, the day sum the source computes minute by minute
+(`series * spread_factor`, `asfreq("1 Min", ffill)`, `resample("D").sum()`) is exactly `daySum` — the quantity every
+conservation theorem above is about -/
+theorem C08_src_minute_grid_day_sum (reads : List (Int × Option Rat)) (hs : reads.Pairwise (fun a b => a.1 < b.1))
+    (d0 d1 : Int) (hd : d0 ≤ d1) :
+    daySumMin (periods reads) d0 d1 = daySum (periods reads) d0 d1 := by
+  unfold daySumMin minutes
+  have := daySumMin_eq (periods reads) (periods_chained reads hs) (d1 - d0).toNat d0
+  rw [this]
+  congr 1
+  omega
+
+/-- … and the number of minutes of the day that carry a value (`resample("D").count()`, the numerator of the coverage)
+is exactly `dayCovered` -/
+theorem C08_src_minute_grid_day_count (reads : List (Int × Option Rat)) (hs : reads.Pairwise (fun a b => a.1 < b.1))
+    (d0 d1 : Int) (hd : d0 ≤ d1) :
+    ((dayCountMin (periods reads) d0 d1 : Nat) : Int) = dayCovered (periods reads) d0 d1 := by
+  unfold dayCountMin minutes
+  have := dayCountMin_eq (periods reads) (periods_chained reads hs) (d1 - d0).toNat d0
+  rw [this]
+  congr 1
+  omega
+
+/-- hence the whole per-day rule — coverage, the 50 % test and the 1/coverage scaling — computed on the minute grid is the
+closed-form `downsampleDay` -/
+theorem C08_src_minute_grid_downsample (reads : List (Int × Option Rat)) (hs : reads.Pairwise (fun a b => a.1 < b.1))
+    (d0 d1 : Int) (hd : d0 ≤ d1) :
+    downsampleDayMin (periods reads) d0 d1 = downsampleDay (periods reads) d0 d1 := by
+  unfold downsampleDayMin downsampleDay coverage
+  rw [C08_src_minute_grid_day_sum reads hs d0 d1 hd]
+  have h := C08_src_minute_grid_day_count reads hs d0 d1 hd
+  have : ((dayCountMin (periods reads) d0 d1 : Nat) : Rat) = ((dayCovered (periods reads) d0 d1 : Int) : Rat) := by
+    exact_mod_cast h
+  rw [this]
+
+/-- the minute-grid model on a concrete hourly meter: two readings of 6 and 3 over one hour each, then the closing stamp;
+the "day" [0, 90) holds the whole first reading and half of the second -/
+example : daySumMin (periods [(0, some 6), (60, some 3), (120, none)]) 0 90 = 6 + 3 / 2 ∧
+    dayCountMin (periods [(0, some 6), (60, some 3), (120, none)]) 0 90 = 90 := by
+  decide +kernel
 
 end EEM.Props.C08
